@@ -20,6 +20,8 @@ use opcua::types::*;
 use std::io::Cursor;
 use std::sync::Arc;
 
+pub mod dispatch;
+
 // ---------------------------------------------------------------------------------------------
 // printing
 // ---------------------------------------------------------------------------------------------
@@ -977,7 +979,14 @@ impl<'a> Gen<'a> {
                 }
                 Some(d)
             }
-            4 => Some(vec![]),
+            4 => {
+                // [] is a valid dimension list of a one-element array only
+                if n == 1 || self.ill_formed {
+                    Some(vec![])
+                } else {
+                    None
+                }
+            }
             _ => {
                 if self.ill_formed {
                     // do not match the number of values (or contain 0)
@@ -1112,5 +1121,132 @@ pub fn run_dec(ty: &str, lim: &Lim, bytes: &[u8]) -> (String, DecOut) {
             let (re, _) = v.encode();
             (format!("ok {} x{}", pos, hex(&re)), DecOut::Ok(v, pos))
         }
+    }
+}
+
+// ---------------------------------------------------------------------------------------------
+// generated service structures (translator T1: `enc/dispatch.rs` is regenerated from the source)
+// ---------------------------------------------------------------------------------------------
+
+/// schema of a field, as extracted by `tools/translate/service_types.py`
+#[derive(Debug)]
+pub enum Ty {
+    Sc(u8),
+    Variant,
+    DataValue,
+    DiagInfo,
+    Enum(u8, &'static [u32]),
+    Flags(u8, u32),
+    Arr(&'static Ty),
+    Ref(&'static str),
+}
+
+/// decode with the real code, re-encode: (consumed, re-encoded bytes, byte_len, size reported by encode)
+pub fn run_struct<T: BinaryEncoder<T>>(bytes: &[u8], o: &DecodingOptions) -> Result<(usize, Vec<u8>, usize, usize), StatusCode> {
+    let mut c = Cursor::new(bytes);
+    let v = T::decode(&mut c, o)?;
+    let pos = c.position() as usize;
+    let mut w = Cursor::new(Vec::new());
+    let reported = v.encode(&mut w)?;
+    Ok((pos, w.into_inner(), v.byte_len(), reported))
+}
+
+pub fn schema_of(name: &str) -> Option<&'static [Ty]> {
+    dispatch::SCHEMAS.iter().find(|(n, _)| *n == name).map(|(_, f)| *f)
+}
+
+fn put_le(out: &mut Vec<u8>, width: u8, v: u32) {
+    out.extend_from_slice(&v.to_le_bytes()[..width as usize]);
+}
+
+impl<'a> Gen<'a> {
+    /// bytes of a (mostly) valid value of the schema, written with the repo's own leaf encoders;
+    /// returns false when something invalid (an unknown enum discriminant) was put in on purpose
+    pub fn schema_bytes(&mut self, ty: &Ty, level: u32, spoil: bool, out: &mut Vec<u8>) -> bool {
+        match ty {
+            Ty::Sc(t) => {
+                let v = self.scalar(*t);
+                let (b, _) = Val::V(v).encode();
+                out.extend_from_slice(&b[1..]);
+                true
+            }
+            Ty::Variant => {
+                let keep = self.ill_formed;
+                self.ill_formed = false;
+                let v = self.variant(2);
+                self.ill_formed = keep;
+                out.extend(Val::V(v).encode().0);
+                true
+            }
+            Ty::DataValue => {
+                let keep = self.ill_formed;
+                self.ill_formed = false;
+                let v = self.data_value(2);
+                self.ill_formed = keep;
+                out.extend(Val::DV(v).encode().0);
+                true
+            }
+            Ty::DiagInfo => {
+                let v = self.diagnostic_info(2);
+                out.extend(Val::DI(v).encode().0);
+                true
+            }
+            Ty::Enum(w, vals) => {
+                if spoil && self.rng.chance(1, 6) {
+                    // a discriminant the enum does not have
+                    let bad = vals.iter().max().copied().unwrap_or(0).wrapping_add(1 + self.rng.below(3) as u32);
+                    put_le(out, *w, bad);
+                    false
+                } else {
+                    let v = *self.rng.pick(vals);
+                    put_le(out, *w, v);
+                    true
+                }
+            }
+            Ty::Flags(w, mask) => {
+                let bits = (self.rng.next() as u32) & mask;
+                put_le(out, *w, bits);
+                true
+            }
+            Ty::Arr(t) => {
+                let n: i32 = if level >= 3 {
+                    *self.rng.pick(&[-1, 0])
+                } else {
+                    *self.rng.pick(&[-1, 0, 1, 1, 2, 3])
+                };
+                out.extend_from_slice(&n.to_le_bytes());
+                let mut ok = true;
+                for _ in 0..n.max(0) {
+                    ok &= self.schema_bytes(t, level + 1, spoil, out);
+                }
+                ok
+            }
+            Ty::Ref(name) => {
+                let fields = schema_of(name).expect("schema");
+                let mut ok = true;
+                for f in fields {
+                    ok &= self.schema_bytes(f, level + 1, spoil, out);
+                }
+                ok
+            }
+        }
+    }
+
+    pub fn struct_bytes(&mut self, name: &str, spoil: bool) -> (Vec<u8>, bool) {
+        let mut out = Vec::new();
+        let mut ok = true;
+        for f in schema_of(name).expect("schema") {
+            ok &= self.schema_bytes(f, 0, spoil, &mut out);
+        }
+        (out, ok)
+    }
+}
+
+/// `sdec <Struct> <opts> x<hex>` → `ok <consumed> x<re-encoded> <byte_len>` | `err`
+pub fn run_sdec(name: &str, lim: &Lim, bytes: &[u8]) -> (String, Option<Result<(usize, Vec<u8>, usize, usize), StatusCode>>) {
+    match dispatch::decode_struct(name, bytes, &lim.options()) {
+        None => ("bad-op".to_string(), None),
+        Some(Err(e)) => ("err".to_string(), Some(Err(e))),
+        Some(Ok((pos, re, len, rep))) => (format!("ok {} x{} {}", pos, hex(&re), len), Some(Ok((pos, re, len, rep)))),
     }
 }
